@@ -240,6 +240,12 @@ theorem C17_strict_sni_streams (re : Bytes → Bytes → Bool) (ops : List Op) (
           (¬ ∃ c, Stored (run init ops) c ∧ CertCovers c N) ∧ lower (stripPort a) = N) :=
   p_strict_sni_streams re ops N hN authorities
 
+/-- the gate is a per-listener policy: with `strict_sni_binding = false`, and on
+    connections without SNI (plaintext listeners), nothing is refused -/
+theorem C17_gate_scope (sni : Option Bytes) (names : Option (List Bytes)) (a : Bytes) :
+    routeAllowed false sni names a = true ∧ routeAllowed true none names a = true :=
+  p_gate_scope sni names a
+
 example : assembleChain 1 [.cert 1, .cert 2, .cert 1, .cert 3] = some [1, 2, 3] ∧
     assembleChain 4 [.cert 5, .bad] = none ∧ assembleChain 5 [] = some [5] := by decide
 
